@@ -166,3 +166,183 @@ Definition parse_tag_model (tag : list N) : option (list N * bool * bool) :=
   | name :: opts => Some (name, existsb (fun p => bs_eqb p w_omitempty) opts, existsb (fun p => bs_eqb p w_list) opts)
   | [] => Some ([], false, false)
   end.
+
+(* ------------------------------------------------------------------------------------------ *)
+(* STRUCTURED STEP LISTS (phase 5): statements of Encode, of getTagType's loop, of the list / array / string /
+   map clauses of writeValue, of typeFields' ordering, in source order                         *)
+
+(* Encode *)
+Inductive hstep : Type := HTagByte | HWriteTag.          (* Write([]byte{t})  /  writeTag(e.w, t, tagName) *)
+Inductive estep : Type :=
+| ENilErr                          (* if v == nil { return error } *)
+| EGetTag                          (* t, val := getTagType(reflect.ValueOf(v)) *)
+| EHeader (net file : hstep)       (* if e.networkFormat { net } else { file } *)
+| EErrRet                          (* if err != nil { return err } *)
+| EMarshal.                        (* return e.marshal(val, t) *)
+(* the bytes Encode writes (None: an error), given the root tag, writeTag, the name and what marshal writes *)
+Fixpoint run_encode (sk : list estep) (isnil net : bool) (wtag : Z -> list Z -> option (list Z))
+         (t : Z) (name : list Z) (body : option (list Z)) (hdr : list Z) (err : bool) : option (list Z) :=
+  match sk with
+  | [] => None
+  | s :: r =>
+      match s with
+      | ENilErr => if isnil then None else run_encode r isnil net wtag t name body hdr err
+      | EGetTag => run_encode r isnil net wtag t name body hdr err
+      | EHeader n f =>
+          match (match (if net then n else f) with HTagByte => Some [t] | HWriteTag => wtag t name end) with
+          | Some h => run_encode r isnil net wtag t name body (hdr ++ h) err
+          | None => run_encode r isnil net wtag t name body hdr true
+          end
+      | EErrRet => if err then None else run_encode r isnil net wtag t name body hdr err
+      | EMarshal => if err then None else match body with Some b => Some (hdr ++ b) | None => None end
+      end
+  end.
+
+(* getTagType *)
+Inductive lstep : Type :=
+| LIfaceElem          (* if v.Kind() == Interface && !v.IsNil() { v = v.Elem(); continue } *)
+| LNonPtrBreak        (* if v.Kind() != Ptr { break } *)
+| LSelfRefBreak       (* the interface pointing at itself *)
+| LNilNew             (* if v.IsNil() { v = reflect.New(v.Type().Elem()) } *)
+| LAskIfaces          (* Marshaler -> its TagType(), TextMarshaler -> TagString *)
+| LDeref.             (* v = v.Elem() *)
+Inductive pstep : Type :=
+| PAskIfaces          (* the same test on the value *)
+| PPtrMarshaler       (* a struct whose pointer type is a Marshaler *)
+| PKindSwitch.        (* sequences by their first element, the rest by getTagTypeByType *)
+
+(* writeValue: list, typed arrays, string, map; writeListHeader *)
+Inductive wstep : Type :=
+| WElemTypeFirstOrType | WListHeader | WLoop (body : list wstep) | WElemTag | WMixedErr | WMarshalElem
+| WLen | WLen32 | WElems
+| WStrBytes | WStrLimit (c : Z) | WLen16 | WStrData
+| WKeyName | WValTag | WEndErr (t : Z) | WWriteTag | WMarshalVal | WEndByte (t : Z)
+| WLHElemByte.
+Definition obind {A B} (o : option A) (f : A -> option B) : option B := match o with Some a => f a | None => None end.
+(* writeListHeader(elementType, n) *)
+Definition run_listheader (sk : list wstep) (w32 : Z -> list Z) (et n : Z) : list Z :=
+  flat_map (fun s => match s with WLHElemByte => [et] | WLen32 => w32 n | _ => [] end) sk.
+(* one element of a list: (its tag, what marshal writes for it) *)
+Fixpoint run_elem (body : list wstep) (et tg : Z) (pl : option (list Z)) : option (list Z) :=
+  match body with
+  | [] => Some []
+  | s :: r =>
+      match s with
+      | WMixedErr => if Z.eqb tg et then run_elem r et tg pl else None
+      | WMarshalElem => obind pl (fun b => obind (run_elem r et tg pl) (fun rest => Some (b ++ rest)))
+      | _ => run_elem r et tg pl
+      end
+  end.
+Fixpoint run_elems (body : list wstep) (et : Z) (elems : list (Z * option (list Z))) : option (list Z) :=
+  match elems with
+  | [] => Some []
+  | e :: r => obind (run_elem body et (fst e) (snd e)) (fun b => obind (run_elems body et r) (fun rest => Some (b ++ rest)))
+  end.
+(* the TagList clause; et: the tag of the first element, or of the element type when there is none *)
+Fixpoint run_list (sk lh : list wstep) (w32 : Z -> list Z) (et : Z) (elems : list (Z * option (list Z))) : option (list Z) :=
+  match sk with
+  | [] => Some []
+  | s :: r =>
+      obind (match s with
+             | WListHeader => Some (run_listheader lh w32 et (Z.of_nat (List.length elems)))
+             | WLoop body => run_elems body et elems
+             | _ => Some []
+             end) (fun b => obind (run_list r lh w32 et elems) (fun rest => Some (b ++ rest)))
+  end.
+(* the typed-array clause: n = val.Len(), then the element bytes *)
+Definition run_array (sk : list wstep) (w32 : Z -> list Z) (n : Z) (data : list Z) : list Z :=
+  flat_map (fun s => match s with WLen32 => w32 n | WElems => data | _ => [] end) sk.
+(* the TagString clause *)
+Fixpoint run_string (sk : list wstep) (w16 : Z -> list Z) (s : list Z) : option (list Z) :=
+  match sk with
+  | [] => Some []
+  | st :: r =>
+      match st with
+      | WStrLimit c => if (c <? Z.of_nat (List.length s))%Z then None else run_string r w16 s
+      | WLen16 => obind (run_string r w16 s) (fun rest => Some (w16 (Z.of_nat (List.length s)) ++ rest))
+      | WStrData => obind (run_string r w16 s) (fun rest => Some (s ++ rest))
+      | _ => run_string r w16 s
+      end
+  end.
+(* one entry of a map: (key, tag of the value, what marshal writes) *)
+Fixpoint run_entry (body : list wstep) (wtag : Z -> list Z -> option (list Z)) (k : list Z) (tg : Z) (pl : option (list Z))
+  : option (list Z) :=
+  match body with
+  | [] => Some []
+  | s :: r =>
+      match s with
+      | WEndErr t => if Z.eqb tg t then None else run_entry r wtag k tg pl
+      | WWriteTag => obind (wtag tg k) (fun h => obind (run_entry r wtag k tg pl) (fun rest => Some (h ++ rest)))
+      | WMarshalVal => obind pl (fun b => obind (run_entry r wtag k tg pl) (fun rest => Some (b ++ rest)))
+      | _ => run_entry r wtag k tg pl
+      end
+  end.
+Fixpoint run_entries (body : list wstep) (wtag : Z -> list Z -> option (list Z)) (es : list (list Z * Z * option (list Z)))
+  : option (list Z) :=
+  match es with
+  | [] => Some []
+  | e :: r => obind (run_entry body wtag (fst (fst e)) (snd (fst e)) (snd e))
+                    (fun b => obind (run_entries body wtag r) (fun rest => Some (b ++ rest)))
+  end.
+Fixpoint run_map (sk : list wstep) (wtag : Z -> list Z -> option (list Z)) (es : list (list Z * Z * option (list Z)))
+  : option (list Z) :=
+  match sk with
+  | [] => Some []
+  | s :: r =>
+      obind (match s with
+             | WLoop body => run_entries body wtag es
+             | WEndByte t => Some [t]
+             | _ => Some []
+             end) (fun b => obind (run_map r wtag es) (fun rest => Some (b ++ rest)))
+  end.
+
+(* typeFields: ordering *)
+Inductive skey : Type := SKName | SKDepth | SKTagged | SKIndex.
+Inductive istep : Type := IShorterFalse | IDiffLt | IEndLenLt.
+Inductive dcond : Type := DLenGt1 | DDepthEq | DTagEq.
+Inductive dres : Type := DNone | DFirst.
+(* byIndex.Less on two index sequences *)
+Fixpoint run_index_less (sk : list istep) (a b : list nat) : bool :=
+  match a with
+  | [] => if existsb (fun s => match s with IEndLenLt => true | _ => false end) sk then (0 <? List.length b)%nat else false
+  | x :: a' =>
+      match b with
+      | [] => false                                            (* IShorterFalse: k >= len(x[j].index) *)
+      | y :: b' => if negb (Nat.eqb x y) then (x <? y)%nat     (* IDiffLt *)
+                   else run_index_less sk a' b'
+      end
+  end.
+(* strings compared as byte sequences (Go's < on strings) *)
+Fixpoint bs_ltb (a b : list N) : bool :=
+  match a, b with
+  | _, [] => false
+  | [], _ :: _ => true
+  | x :: a', y :: b' => if N.ltb x y then true else if N.ltb y x then false else bs_ltb a' b'
+  end.
+(* the less function of the sort: (name, index sequence, tagged) of both fields *)
+Fixpoint run_less (keys : list skey) (il : list istep) (x y : list N * list nat * bool) : bool :=
+  match keys with
+  | [] => false
+  | k :: r =>
+      let '(nx, ix, tx) := x in let '(ny, iy, ty) := y in
+      match k with
+      | SKName => if negb (bs_eqb nx ny) then bs_ltb nx ny else run_less r il x y
+      | SKDepth => if negb (Nat.eqb (List.length ix) (List.length iy)) then (List.length ix <? List.length iy)%nat else run_less r il x y
+      | SKTagged => if negb (Bool.eqb tx ty) then tx else run_less r il x y
+      | SKIndex => run_index_less il ix iy
+      end
+  end.
+(* dominantField on the fields of one name, sorted: None = the name is dropped *)
+Definition run_dominant {A} (d : list dcond * dres * dres) (depth : A -> nat) (tagged : A -> bool) (g : list A) : option A :=
+  let '(conds, yes, no) := d in
+  let holds (c : dcond) :=
+    match c, g with
+    | DLenGt1, _ :: _ :: _ => true
+    | DDepthEq, f0 :: f1 :: _ => Nat.eqb (depth f0) (depth f1)
+    | DTagEq, f0 :: f1 :: _ => Bool.eqb (tagged f0) (tagged f1)
+    | _, _ => false
+    end in
+  match (if forallb holds conds then yes else no), g with
+  | DFirst, f0 :: _ => Some f0
+  | _, _ => None
+  end.
